@@ -218,6 +218,10 @@ def replay_history(hist):
                     conns.append(ch.ClientAuthConn(p, 'cname', a['user'], a['pw']))
             elif op == 'newcaller':
                 callers.append(e['Caller'](conns[st['conn'] - 1]))
+                if st['wrapped']:
+                    conns.append(callers[-1].http_conn)
+                elif callers[-1].http_conn is not conns[st['conn'] - 1]:
+                    return '%s: machinery: the caller does not use the plain connection it was given' % where, ['machinery']
             elif op == 'clone':
                 ads = [_adapter(a) for a in st['args']]
                 m = callers[st['caller'] - 1]
@@ -237,6 +241,8 @@ def replay_history(hist):
                     conns.append(c)
                 else:
                     extra_probe = (c, st['result'])
+            elif op == 'addadapter':
+                conns[st['conn'] - 1].add_adapter(_adapter(st['adapter']))
             elif op == 'request':
                 conn = conns[st['conn'] - 1]
                 data, body, ctype = DATA[st['data']]
@@ -274,7 +280,7 @@ def replay_history(hist):
 
 def run(ctx):
     ctx.assumptions += ['at most one authenticating layer per chain (the code asserts against two); request paths start '
-                        'with "/"; URLs compared by path segments (duplicate "/" collapsed); add_adapter not exercised']
+                        'with "/"; URLs compared by path segments (duplicate "/" collapsed); add_adapter appends to the effective list of that connection only']
     depth = 3
     ctx.tlc('http/HttpConn.tla', _cfg(depth if ctx.quick else 4, 4 if ctx.quick else 5, False), workers=16, timeout=7200, heap='12g')
     r = ctx.tlc('http/HttpConn.tla', _cfg(depth, 4, True, props=False), workers=16, timeout=3000)
